@@ -94,7 +94,7 @@ def mk_Density(f, n, all_set=False, pos=False):
     site = mk_MA(f, 'site', 1, n, space=NS, types=types)
     f.setattr(pair, 'data', f.array_of((1, n, n), lambda l, a, b: f.select((l, a, b), ptab, 0.0)))
     f.setattr(site, 'data', f.array_of((1, n, n), lambda l, a, b: f.select((l, a, b), stab, 0.0)))
-    return f.obj(DEN, types=types, density=dens, total=tot, pair=pair, site=site)
+    return f.make(DEN, args=(types,), types=types, density=dens, total=tot, pair=pair, site=site)
 
 
 def mk_Diameter(f, n, all_set=False, pos=False):
@@ -117,7 +117,7 @@ def mk_Diameter(f, n, all_set=False, pos=False):
             sv[a][b] = f.opt_derived(f.Or(f.is_none(dvals[a]), f.is_none(dvals[b])), (dval(a) + dval(b)) / 2)
     for t in (dia, vol, sig):
         f.setattr(t, 'types', types)
-    return f.obj(DIA, types=types, diameter=dia, volume=vol, sigma=sig)
+    return f.make(DIA, args=(types,), types=types, diameter=dia, volume=vol, sigma=sig)
 
 
 # --------------------------------------------------------------------------- Density
